@@ -351,7 +351,7 @@ func (r *Real) Exec(o model.Op) (panicked bool, ret any, pmsg any) {
 	// list receiver
 	switch o.Op {
 	case "Add", "Insert", "Replace", "Delete", "Pop", "Clear", "Reverse", "Sort", "SortAny", "SubList", "Concat",
-		"Clone", "Slice", "NativeSlice", "FilterAll", "MapId":
+		"Clone", "Slice", "NativeSlice", "FilterAll", "FilterHead", "MapId":
 		l := r.list(o.R)
 		switch o.Op {
 		case "Add":
@@ -383,6 +383,9 @@ func (r *Real) Exec(o model.Op) (panicked bool, ret any, pmsg any) {
 			return false, &GoSlice{S: l.NativeSlice()}, nil
 		case "FilterAll":
 			return false, r.wrapL(l.Filter(func(any) bool { return true })), nil
+		case "FilterHead":
+			calls := 0
+			return false, r.wrapL(l.Filter(func(any) bool { calls++; return calls <= o.I })), nil
 		case "MapId":
 			return false, r.wrapL(l.Map(func(_ int, v any) any { return v })), nil
 		}
